@@ -344,6 +344,8 @@ func runC03(c *Ctx) {
 		})
 	}
 	c.Min("I4-positional", 6)
+	// ---- I6: the element addressed is the one named by the key, the value stored is the one assigned
+	c.ruleI6("I6-key-and-value-reach-access")
 	// ---- I5
 	if f := c.MustFn("I5-missing-key-zero", "internal/base", "MapVar", "Evaluate"); f != nil {
 		x := c.Index(f)
@@ -678,4 +680,112 @@ func (x *FnIndex) elemChain(v ssa.Value, kind string) (int, ssa.Value) {
 		}
 	}
 	return n, nil
+}
+
+// ruleI6: in MapVar.Evaluate and DataContext.SetMapVarValue every key source (the value of the key
+// variable, the literal string key, the literal integer key) flows into the index/key operand of a
+// reflect Index / MapIndex / SetMapIndex call, and the assigned value flows into the stored operand.
+func (c *Ctx) ruleI6(rule string) {
+	for _, spec := range [][3]string{{"internal/base", "MapVar", "Evaluate"}, {"context", "DataContext", "SetMapVarValue"}} {
+		f := c.MustFn(rule, spec[0], spec[1], spec[2])
+		if f == nil {
+			continue
+		}
+		x := c.Index(f)
+		passWanted := func(call *ssa.Call) bool { return calleeIs(call, pCore, "", "GetWantedValue") }
+		keySink := func(in ssa.Instruction, v ssa.Value) bool {
+			name, cc := reflectMethod(in)
+			if cc == nil || len(cc.Args) < 2 {
+				return false
+			}
+			return (name == "Index" || name == "MapIndex" || name == "SetMapIndex") && cc.Args[1] == v
+		}
+		valSink := func(in ssa.Instruction, v ssa.Value) bool {
+			name, cc := reflectMethod(in)
+			if cc == nil {
+				return false
+			}
+			if name == "SetMapIndex" && len(cc.Args) == 3 && cc.Args[2] == v {
+				return true
+			}
+			return name == "Set" && len(cc.Args) == 2 && cc.Args[1] == v
+		}
+		// key sources
+		k := 0
+		// parameters of SetMapVarValue by position (the caller's argument order is checked by C02-S7):
+		// (dc, Vars, name, strkey, varkey string, intkey int64, value reflect.Value)
+		var pStr, pVar, pInt, pVal *ssa.Parameter
+		if spec[2] == "SetMapVarValue" && len(f.Params) == 7 {
+			pStr, pVar, pInt, pVal = f.Params[3], f.Params[4], f.Params[5], f.Params[6]
+		}
+		isVarkey := func(v ssa.Value) bool {
+			if p, ok := x.Origin(v).(*ssa.Parameter); ok && pVar != nil && p == pVar {
+				return true
+			}
+			_, is := x.isFieldLoad(v, "MapVar", "Varkey")
+			return is
+		}
+		eachInstr(f, func(in ssa.Instruction) {
+			call, ok := in.(*ssa.Call)
+			if !ok || !calleeIs(call, pContext, "DataContext", "GetValue") || !isVarkey(call.Call.Args[2]) {
+				return
+			}
+			k++
+			c.Check(rule, fmt.Sprintf("%s#variable-key%d", fnName(f), k), x.flowsTo(call, passWanted, keySink), in.Pos(), "the current value of the key variable is looked up but does not reach the index / key operand of the element access: another element would be addressed")
+		})
+		// literal keys: every read of the literal key parameter / field reaches a key operand, except reads that only test it
+		lit := 0
+		var litSources []ssa.Value
+		for _, p := range []*ssa.Parameter{pStr, pInt} {
+			if p != nil {
+				litSources = append(litSources, p)
+			}
+		}
+		eachInstr(f, func(in ssa.Instruction) {
+			if u, ok := in.(*ssa.UnOp); ok {
+				if fa, ok := u.X.(*ssa.FieldAddr); ok && structName(fa.X.Type()) == "MapVar" && (fieldOf(fa).Name() == "Intkey" || fieldOf(fa).Name() == "Strkey") {
+					litSources = append(litSources, u)
+				}
+			}
+		})
+		reach := map[string]bool{}
+		for _, src := range litSources {
+			name := x.Describe(src)
+			if x.flowsTo(src, passWanted, keySink) {
+				reach[name] = true
+			} else if _, seen := reach[name]; !seen {
+				reach[name] = false
+			}
+		}
+		for name, ok := range reach {
+			lit++
+			c.Check(rule, fmt.Sprintf("%s#literal-key %s", fnName(f), name), ok, f.Pos(), "the literal key %s never reaches the index / key operand of an element access", name)
+		}
+		if spec[2] == "SetMapVarValue" {
+			sv := pVal
+			ok := sv != nil && x.flowsTo(sv, passWanted, valSink)
+			c.Check(rule, fnName(f)+"#assigned-value-stored", ok, f.Pos(), "the assigned value must reach the stored operand of Set / SetMapIndex")
+			// every Set / SetMapIndex stores something derived from the assigned value
+			n := 0
+			eachInstr(f, func(in ssa.Instruction) {
+				name, cc := reflectMethod(in)
+				if cc == nil || (name != "Set" && name != "SetMapIndex") {
+					return
+				}
+				n++
+				stored := cc.Args[len(cc.Args)-1]
+				okV := false
+				if ex, isEx := x.Origin(stored).(*ssa.Extract); isEx {
+					if wc, isCall := ex.Tuple.(*ssa.Call); isCall && calleeIs(wc, pCore, "", "GetWantedValue") && sv != nil && x.Origin(wc.Call.Args[0]) == ssa.Value(sv) {
+						okV = true
+					}
+				}
+				c.Check(rule, fmt.Sprintf("%s#%s%d-stores-assigned-value", fnName(f), name, n), okV, in.Pos(), "the element must receive the assigned value, coerced to the element type by GetWantedValue (got %s)", x.Describe(stored))
+			})
+		}
+		if k == 0 {
+			c.Lost(rule, "lookups of the key variable in "+fnName(f))
+		}
+	}
+	c.Min(rule, 20)
 }
